@@ -210,7 +210,7 @@ def main():
     pid = args.pid
     tier = args.tier if args.tier in ("quick", "thorough") else "quick"
     seed = int(os.environ.get("VERIF_SEED", "1") or 1)
-    cfg = props.PROPS[pid]
+    cfg = props.PROPS_ALL[pid]
     t0 = time.time()
     os.makedirs(EVID, exist_ok=True)
     os.makedirs(CACHE, exist_ok=True)
